@@ -38,7 +38,7 @@ TEXT = {
   ref="DESIGN.md §7 C03"),
  "C08": dict(
   technique="runtime monitoring: reference validity predicate + transparency differential + duplicate-member detection, in debug and release builds",
-  level="Exploration over inputs and configurations in both build profiles: valid entries with 0-3 injected defects of every listed kind; must-reject entries have to yield a validation error and zero bytes wherever validation is documented to be on; valid entries must be accepted with output identical (multiset of lines) to the non-validating formatter, also on a long-lived formatter after earlier rejected entries; every accepted record is scanned for duplicate member names by a duplicate-preserving parser. Known finding F4 is matched by signature and reported as KNOWN-FINDING. Wide entries with 40-170 distinct per-metric dimension sets. Error-report entries interleaved; owned and borrowed names. Per-metric dimensions through iterators with inexact size hints.",
+  level="Exploration over inputs and configurations in both build profiles: valid entries with 0-3 injected defects of every listed kind; must-reject entries have to yield a validation error and zero bytes wherever validation is documented to be on; valid entries must be accepted with output identical (multiset of lines) to the non-validating formatter, also on a long-lived formatter after earlier rejected entries; every accepted record is scanned for duplicate member names by a duplicate-preserving parser. Known finding F4 is matched by signature and reported as KNOWN-FINDING. Wide entries with 40-170 distinct per-metric dimension sets. Error-report entries interleaved; owned and borrowed names. Per-metric dimensions through iterators with inexact size hints. One name twice under one dimension set listed in two orders.",
   note="Trusted: the reference predicate; 'validation promised' = Emf::all_validations in every profile, Emf::builder() only with debug assertions (as documented).",
   ref="DESIGN.md §7 C08"),
  "C14": dict(
@@ -68,7 +68,7 @@ TEXT = {
   ref="DESIGN.md §7 C11"),
  "C12": dict(
   technique="runtime monitoring: exact-rational oracle on the hooked rate->weight split, scripted-RNG differential on sampling decisions, invariants on hooked congressional rates",
-  level="Exploration over inputs and histories: the weight split is checked against the exact rational 1/rate for millions of f32 rates (thorough: every f32 in (0,1]) at both extreme draws incl. the expectation; the public sampled formatter's Counts must imply that one weight; FixedFractionSample/CongressSample decisions are compared with draw <= rate where the draw is recomputed by rand itself (the draw == rate boundary is forced); congressional rates are checked after every manually ended interval of random appear/disappear/burst histories. Congress intervals are shaped to land exactly on, one above and one below the target. Draws forced onto the congress rate boundary; steady scenarios with known group frequencies (ordering judged without the sampler's own averages). Two-pair sample groups in alternating pair order, validate_groups off in half of the steady scenarios.",
+  level="Exploration over inputs and histories: the weight split is checked against the exact rational 1/rate for millions of f32 rates (thorough: every f32 in (0,1]) at both extreme draws incl. the expectation; the public sampled formatter's Counts must imply that one weight; FixedFractionSample/CongressSample decisions are compared with draw <= rate where the draw is recomputed by rand itself (the draw == rate boundary is forced); congressional rates are checked after every manually ended interval of random appear/disappear/burst histories. Congress intervals are shaped to land exactly on, one above and one below the target. Draws forced onto the congress rate boundary; steady scenarios with known group frequencies (ordering judged without the sampler's own averages). Two-pair sample groups in alternating pair order, validate_groups off in half of the steady scenarios. The default rng (weights of non-integer reciprocals, 8 sigma margins); congress rates a few ulps below 1 with the largest draw.",
   note="Trusted: u128 rational arithmetic; hooks H5/H6 forward to the private functions unchanged.",
   ref="DESIGN.md §7 C12"),
  "C13": dict(
@@ -93,12 +93,12 @@ TEXT = {
   ref="DESIGN.md §7 C17"),
  "C18": dict(
   technique="runtime monitoring: exhaustive and random op sequences on a manually advanced clock vs a sequential reference after every prefix",
-  level="Exploration over histories: every stopwatch op sequence up to length 8 (thorough 9) with owned and borrowed guards, plus random sequences up to length 200, checked after every prefix; timers, timestamps in three epoch units, and the time-source resolution order. Closing by value with owned guards still live; 2-5 owned guards ended at the same moment on separate threads (also under Miri and TSan). Closes by reference racing with guards stopped elsewhere; values closed under a foreign time source; owned guards dropped by unwinding.",
+  level="Exploration over histories: every stopwatch op sequence up to length 8 (thorough 9) with owned and borrowed guards, plus random sequences up to length 200, checked after every prefix; timers, timestamps in three epoch units, and the time-source resolution order. Closing by value with owned guards still live; 2-5 owned guards ended at the same moment on separate threads (also under Miri and TSan). Closes by reference racing with guards stopped elsewhere; values closed under a foreign time source; owned guards dropped by unwinding. A clock that ticks on every reading; nested thread-local time-source injections.",
   note="Trusted: ManuallyAdvancedTimeSource; the reference total (sum of completed, non-discarded spans since the last clear/overwrite).",
   ref="DESIGN.md §7 C18"),
  "C19": dict(
   technique="runtime monitoring: every convertible unit pair (macro-generated table) against an independent scale table, through recorded ValueWriter calls",
-  level="Exhaustive over the 435 ordered pairs of convertible units (the table is complete by construction: other pairs do not compile) x extreme and random magnitudes of all observation kinds; also the #[metrics(unit=..)] attribute through generated structs, Duration/Option/Distribution/Mean and the two error cases (incl. identity conversions). Distributions in which an element at any position writes a unit other than promised; durations over the whole range of Duration. Refused values must leave a long-lived Mean untouched; same-kind other-scale lies.",
+  level="Exhaustive over the 435 ordered pairs of convertible units (the table is complete by construction: other pairs do not compile) x extreme and random magnitudes of all observation kinds; also the #[metrics(unit=..)] attribute through generated structs, Duration/Option/Distribution/Mean and the two error cases (incl. identity conversions). Distributions in which an element at any position writes a unit other than promised; durations over the whole range of Duration. Refused values must leave a long-lived Mean untouched; same-kind other-scale lies. A promised unit with an untagged number written.",
   note="Trusted: the harness scale table; 4-ulp tolerance for 'floating-point rounding'.",
   ref="DESIGN.md §7 C19"),
  "C20": dict(
